@@ -1856,7 +1856,14 @@ impl<'a> Sem<'a> {
         let doc = if in_multiclass { None } else { self.doc_comment() };
         let start = self.stmt_begin();
         self.w("def ");
-        let name = format!("{name_prefix}{}", self.fresh("d"));
+        // now and then a name that looks like something else: like the names given to records that have
+        // none (`anonymous_<n>`; far above the number of such records in a program), like a keyword
+        let stem = if name_prefix.is_empty() && self.counter > 60 && self.rng.chance(1, 10) && self.on("peculiar-def-names") {
+            ["anonymous_", "anonymous", "Anonymous_", "defset", "include_", "field", "multiclass_", "let"][self.rng.below(8)]
+        } else {
+            "d"
+        };
+        let name = format!("{name_prefix}{}", self.fresh(stem));
         let decl = self.declare(DeclKind::Def, &name, None, doc, None);
         let pasted = self.paste_suffix(decl);
         let saved_t = std::mem::take(&mut self.rec_targs);
@@ -2513,9 +2520,10 @@ impl<'a> Sem<'a> {
         } else {
             None
         };
+        let doc = if self.on("defm-doc-comment") { self.doc_comment() } else { None };
         self.w("defm ");
         let dn = self.fresh("DM");
-        let defm_decl = self.declare(DeclKind::Defm, &dn, None, None, None);
+        let defm_decl = self.declare(DeclKind::Defm, &dn, None, doc, None);
         self.w(" : ");
         self.mc_ref(&m);
         let mut second: Option<McInfo> = None;
